@@ -83,6 +83,8 @@ class Sandbox:
         self._current_stdout = []
         # The builtin replacements that were placed in the student namespace
         self._injected_builtins = {}
+        # Student files imported by the program (kept between its executions)
+        self._student_modules = {}
         # Temporary Variables
         self._temporary_variables = set()
         self._backup_variables = {}
@@ -271,6 +273,8 @@ class Sandbox:
             if filename is None:
                 filename = self.report.submission.main_file
             code = self.report.submission.files[filename]
+            # A student file is run afresh: it imports the other files anew
+            self._student_modules.clear()
         elif filename is None:
             filename = self.report.submission.instructor_file
         if inputs is not None:
@@ -828,6 +832,7 @@ class Sandbox:
     def clear_data(self):
         # Temporary data
         self.data.clear()
+        self._student_modules.clear()
         self._temporary_variables.clear()
         self._backup_variables.clear()
         self._reset_builtins(self.data)
